@@ -51,6 +51,17 @@ pub struct Scenario {
     /// label re-use enabled does)
     #[serde(default)]
     pub reuse_mask: u8,
+    /// present the whole sequence as one frame buffer walked by the consumed lengths (instead of
+    /// one exactly sized buffer per packet)
+    #[serde(default)]
+    pub as_frame: bool,
+    /// storages provisioned beyond the minimum (tracked trains + 1): 0..=2
+    #[serde(default = "two")]
+    pub spare: u8,
+}
+
+fn two() -> u8 {
+    2
 }
 
 #[derive(Clone, Debug)]
@@ -225,7 +236,11 @@ fn check_scenario(sc: &Scenario, st: &mut Stats) -> Result<(), String> {
     let mut preempt = false;
 
     let max_pdu = pdus.iter().map(|p| p.len()).max().unwrap_or(0).max(32);
-    let mut d = new_simple_dec(k, max_pdu, &vec![max_pdu; k + 2], TableManager::all());
+    let n_bufs = (sc.trains.len() + 1 + sc.spare as usize).min(k + 2);
+    let mut d = new_simple_dec(k, max_pdu, &vec![max_pdu; n_bufs], TableManager::all());
+    let frame: Vec<u8> = if sc.as_frame { seq.iter().flat_map(|i| i.bytes.iter().copied()).collect() } else { vec![] };
+    let mut frame_off = 0usize;
+    st.class_if(sc.as_frame, "walked-as-one-frame");
     let mut delivered = vec![0u32; sc.trains.len()];
 
     let desc = |i: usize, it: &Item| format!("packet #{} {:?} {}", i, it.role, hex(&it.bytes));
@@ -287,7 +302,17 @@ fn check_scenario(sc: &Scenario, st: &mut Stats) -> Result<(), String> {
                 Expect::Deliver(pdu.clone(), *lab, 0x0801, vec![])
             }
         };
-        let r = call_decap(&mut d, &it.bytes);
+        let r = if sc.as_frame { call_decap(&mut d, &frame[frame_off..]) } else { call_decap(&mut d, &it.bytes) };
+        if sc.as_frame {
+            let used = match &r {
+                Ok(Ok((_, n))) | Ok(Err((_, n))) => *n,
+                Err(_) => it.bytes.len(),
+            };
+            if used != it.bytes.len() {
+                return st.violation("consumed", format!("{}: inside a frame the call consumed {} bytes, the packet has {} ({})", desc(i, it), used, it.bytes.len(), show_dec(&r)));
+            }
+            frame_off += it.bytes.len();
+        }
         match (&expect, &r) {
             (_, Err(p)) => return st.violation(&format!("panic {}", p.site()), format!("{}: decap panicked: {}", desc(i, it), p.0)),
             (Expect::Fragmented(t), Ok(Ok((DecapStatus::FragmentedPkt(md), n)))) => {
@@ -386,7 +411,7 @@ fn enum_table(t: Tier) -> &'static Vec<Scenario> {
                     // second pass: all trains carry the same 6-byte label and go out with re-use labels where a sender would
                     let trains: Vec<TrainSpec> = if same { trains.iter().map(|t| TrainSpec { lab: labs[0], ..t.clone() }).collect() } else { trains.clone() };
                     let reuse_mask = if same { 0xFF } else { 0 };
-                    out.push(Scenario { k, trains: trains.clone(), merge: merge.clone(), strays: vec![], reuse_mask });
+                    out.push(Scenario { k, trains: trains.clone(), merge: merge.clone(), strays: vec![], reuse_mask, as_frame: same, spare: 0 });
                     let mut kinds = vec![Stray::CompleteBroadcast, Stray::CompleteLabel, Stray::InterUnknown, Stray::EndUnknown];
                     for t in 0..cfg.len() as u8 {
                         kinds.extend([Stray::InterAlias(t), Stray::EndAlias(t), Stray::RestartSame(t), Stray::ClaimAlias(t)]);
@@ -395,7 +420,7 @@ fn enum_table(t: Tier) -> &'static Vec<Scenario> {
                         for pos in 0..=total {
                             // position encoded so that idx16 maps it back exactly
                             let p = (((pos as u32) << 16) / (total as u32 + 1) + 1).min(65535) as u16;
-                            out.push(Scenario { k, trains: trains.clone(), merge: merge.clone(), strays: vec![(p, s)], reuse_mask });
+                            out.push(Scenario { k, trains: trains.clone(), merge: merge.clone(), strays: vec![(p, s)], reuse_mask, as_frame: same != (pos % 2 == 0), spare: 0 });
                         }
                     }
                 }
@@ -437,8 +462,8 @@ fn gen_strategy(t: Tier) -> BoxedStrategy<Scenario> {
         1 => (0u8..4).prop_map(Stray::RestartSame),
         1 => (0u8..4).prop_map(Stray::ClaimAlias),
     ];
-    bx((2u8..=8, prop::collection::vec(train, 2..=4), any::<[u8; 4]>(), prop::collection::vec((any::<u16>(), stray), 0..=6), any::<u8>())
-        .prop_flat_map(|(k, trains, idsel, strays, reuse_mask)| {
+    bx((2u8..=8, prop::collection::vec(train, 2..=4), any::<[u8; 4]>(), prop::collection::vec((any::<u16>(), stray), 0..=6), (any::<u8>(), any::<bool>(), 0u8..=2))
+        .prop_flat_map(|(k, trains, idsel, strays, (reuse_mask, as_frame, spare))| {
             let n = trains.len().min(k as usize);
             // ids with pairwise distinct residues modulo k: residue r_i distinct, id = r_i + k * m_i
             let mut residues: Vec<u8> = (0..k).collect();
@@ -464,9 +489,9 @@ fn gen_strategy(t: Tier) -> BoxedStrategy<Scenario> {
                     merge.push(i as u8);
                 }
             }
-            (Just(k), Just(specs), Just(merge).prop_shuffle(), Just(strays), Just(reuse_mask))
+            (Just(k), Just(specs), Just(merge).prop_shuffle(), Just(strays), Just((reuse_mask, as_frame, spare)))
         })
-        .prop_map(|(k, trains, merge, strays, reuse_mask)| Scenario { k, trains, merge, strays, reuse_mask }))
+        .prop_map(|(k, trains, merge, strays, (reuse_mask, as_frame, spare))| Scenario { k, trains, merge, strays, reuse_mask, as_frame, spare }))
 }
 
 pub fn property() -> Property {
@@ -482,7 +507,7 @@ pub fn property() -> Property {
                 exhaustive: |_| true,
                 check: check_enum,
                 describe: desc_enum,
-                required_classes: &["interleaved", "stray-aliases-open-slot", "first-fragment-preempts-open-train", "first-fragment-with-re-use-label", "train-with-extensions"],
+                required_classes: &["interleaved", "stray-aliases-open-slot", "first-fragment-preempts-open-train", "first-fragment-with-re-use-label", "train-with-extensions", "walked-as-one-frame"],
             }),
             Box::new(GenPart {
                 name: "random-interleavings",
